@@ -60,15 +60,16 @@ type Result struct {
 }
 
 var (
-	Tier    = flag.String("tier", "quick", "quick|thorough")
-	Seed    = flag.Int64("seed", 1, "seed for DRBGs")
-	Out     = flag.String("out", "", "result file")
-	Shard   = flag.String("shard", "0/1", "i/n: this process handles cases with index%n==i")
-	Replay  = flag.String("replay", "", "replay file: run only that case, verbosely")
-	Workers = flag.Int("workers", runtime.NumCPU(), "parallel workers")
-	Budget  = flag.Duration("budget", 0, "internal time budget (0 = tier default)")
-	Mode    = flag.String("mode", "explore", "explore | race (free-running pass for the race detector)")
-	Only    = flag.String("only", "", "substring filter on scenario names (debugging)")
+	Tier        = flag.String("tier", "quick", "quick|thorough")
+	Seed        = flag.Int64("seed", 1, "seed for DRBGs")
+	Out         = flag.String("out", "", "result file")
+	Shard       = flag.String("shard", "0/1", "i/n: this process handles cases with index%n==i")
+	Replay      = flag.String("replay", "", "replay file: run only that case, verbosely")
+	Workers     = flag.Int("workers", runtime.NumCPU(), "parallel workers")
+	Budget      = flag.Duration("budget", 0, "internal time budget (0 = tier default)")
+	Mode        = flag.String("mode", "explore", "explore | race (free-running pass for the race detector)")
+	ResumeAfter = flag.Int("resume-after", 0, "skip cases numbered <= this (used by run.py to continue a shard after a case killed the process)")
+	Only        = flag.String("only", "", "substring filter on scenario names (debugging)")
 )
 
 var shardI, shardN = 0, 1
@@ -259,4 +260,24 @@ func LoadReplay(v interface{}) bool {
 		os.Exit(2)
 	}
 	return true
+}
+
+// Progress records the case about to be executed, so that the parent can attribute a death of
+// the process (fatal error: out of memory, stack overflow, ...) to it and resume after it; the
+// results gathered so far are checkpointed to the result file first.
+func (r *Result) Progress(n int, sig string, replay interface{}) {
+	if *Out == "" {
+		return
+	}
+	r.mu.Lock()
+	saveN, saveW := r.Nontrivial, r.WallS
+	r.Nontrivial += int64(len(r.distinct))
+	r.WallS = time.Since(r.t0).Seconds()
+	b, _ := json.Marshal(r)
+	r.Nontrivial, r.WallS = saveN, saveW
+	r.mu.Unlock()
+	_ = os.WriteFile(*Out+".tmp", b, 0o644)
+	_ = os.Rename(*Out+".tmp", *Out)
+	pb, _ := json.Marshal(map[string]interface{}{"n": n, "sig": sig, "replay": replay})
+	_ = os.WriteFile(*Out+".progress", pb, 0o644)
 }
